@@ -9,11 +9,12 @@ import (
 	"verif/sched"
 )
 
-func pt(k string) { sched.Point("atomic."+k, nil) }
 
-// pa is pt with the address of the atomic variable as the operation's object.
+// pa is the scheduling point before an atomic operation; the operation's object is the
+// address of the variable (as a number, so that differently typed views of one word agree).
 func pa(k string, addr any) {
-	sched.PointOp("atomic."+k, sched.OpSig{Obj: addr, Read: k == "Load" || k == "LoadPointer"}, nil)
+	p := uintptr((*[2]unsafe.Pointer)(unsafe.Pointer(&addr))[1])
+	sched.PointOp("atomic."+k, sched.OpSig{Obj: p, Read: k == "Load" || k == "LoadPointer"}, nil)
 }
 
 func LoadInt32(a *int32) int32       { pa("Load", a); return atomic.LoadInt32(a) }
@@ -45,31 +46,31 @@ func SwapUint32(a *uint32, v uint32) uint32     { pa("Swap", a); return atomic.S
 func SwapUint64(a *uint64, v uint64) uint64     { pa("Swap", a); return atomic.SwapUint64(a, v) }
 func SwapUintptr(a *uintptr, v uintptr) uintptr { pa("Swap", a); return atomic.SwapUintptr(a, v) }
 func SwapPointer(a *unsafe.Pointer, v unsafe.Pointer) unsafe.Pointer {
-	pt("SwapPointer")
+	pa("SwapPointer", a)
 	return atomic.SwapPointer(a, v)
 }
 func CompareAndSwapInt32(a *int32, o, n int32) bool {
-	pt("CAS")
+	pa("CAS", a)
 	return atomic.CompareAndSwapInt32(a, o, n)
 }
 func CompareAndSwapInt64(a *int64, o, n int64) bool {
-	pt("CAS")
+	pa("CAS", a)
 	return atomic.CompareAndSwapInt64(a, o, n)
 }
 func CompareAndSwapUint32(a *uint32, o, n uint32) bool {
-	pt("CAS")
+	pa("CAS", a)
 	return atomic.CompareAndSwapUint32(a, o, n)
 }
 func CompareAndSwapUint64(a *uint64, o, n uint64) bool {
-	pt("CAS")
+	pa("CAS", a)
 	return atomic.CompareAndSwapUint64(a, o, n)
 }
 func CompareAndSwapUintptr(a *uintptr, o, n uintptr) bool {
-	pt("CAS")
+	pa("CAS", a)
 	return atomic.CompareAndSwapUintptr(a, o, n)
 }
 func CompareAndSwapPointer(a *unsafe.Pointer, o, n unsafe.Pointer) bool {
-	pt("CASPointer")
+	pa("CASPointer", a)
 	return atomic.CompareAndSwapPointer(a, o, n)
 }
 func AndInt32(a *int32, m int32) int32         { pa("And", a); return atomic.AndInt32(a, m) }
